@@ -1,4 +1,216 @@
-import NumqiModel.Lie
+/-
+C15 — SU(2)/SO(3) conversions are consistent for every rotation, gimbal lock included.
+
+Property theorems only (helper lemmas: `NumqiProofs/Lie.lean`, `NumqiProofs/LieReal.lean`,
+`NumqiProofs/LieAngMom.lean`).  Part A is stated for every commutative ring `R` (real quantities in
+`R`, complex ones in the pair type `Cx R`; for `R = ℝ` this is `ℂ`), Part B over `ℝ` with the real
+`cos / sin / arccos / arg`, Part C for every `j2`.
+-/
+import NumqiProofs.Lie
+import NumqiProofs.LieReal
+
+set_option linter.unusedSectionVars false
+
 namespace Numqi.C15
-theorem stub : (1 : Nat) = 1 := rfl
+open Numqi.Lie Matrix
+
+variable {R : Type} [CommRing R]
+
+/-! ## Part A — polynomial identities (any commutative ring) -/
+
+/-- **`angle_to_so3` is `Rz(α) Ry(β) Rz(γ)`** (no hypothesis on the six numbers). -/
+theorem angleToSO3_eq_rot (ca sa cb sb cg sg : R) :
+    M3 (angleToSO3cs ca sa cb sb cg sg) = M3 (rotZ ca sa) * M3 (rotY cb sb) * M3 (rotZ cg sg) := by
+  apply mat3_ext <;> simp only [mul3_apply, angleToSO3cs, rotZ, rotY, mk3_00, mk3_01, mk3_02, mk3_10, mk3_11, mk3_12,
+    mk3_20, mk3_21, mk3_22] <;> ring
+
+theorem rotZ_orthogonal {c s : R} (h : c * c + s * s = 1) : M3 (rotZ c s) * (M3 (rotZ c s))ᵀ = 1 := by
+  apply mat3_ext <;> simp [mul3_apply, rotZ] <;> first | ring1 | linear_combination h
+
+theorem rotY_orthogonal {c s : R} (h : c * c + s * s = 1) : M3 (rotY c s) * (M3 (rotY c s))ᵀ = 1 := by
+  apply mat3_ext <;> simp [mul3_apply, rotY] <;> first | ring1 | linear_combination h
+
+theorem rotZ_det {c s : R} (h : c * c + s * s = 1) : (M3 (rotZ c s)).det = 1 := by
+  rw [Matrix.det_fin_three]; simp [rotZ]; linear_combination h
+
+theorem rotY_det {c s : R} (h : c * c + s * s = 1) : (M3 (rotY c s)).det = 1 := by
+  rw [Matrix.det_fin_three]; simp [rotY]; linear_combination h
+
+/-- **`angle_to_so3` is orthogonal** whenever the three pairs lie on the unit circle. -/
+theorem angleToSO3_orthogonal {ca sa cb sb cg sg : R}
+    (ha : ca * ca + sa * sa = 1) (hb : cb * cb + sb * sb = 1) (hg : cg * cg + sg * sg = 1) :
+    M3 (angleToSO3cs ca sa cb sb cg sg) * (M3 (angleToSO3cs ca sa cb sb cg sg))ᵀ = 1 := by
+  rw [angleToSO3_eq_rot, Matrix.transpose_mul, Matrix.transpose_mul]
+  calc M3 (rotZ ca sa) * M3 (rotY cb sb) * M3 (rotZ cg sg) * ((M3 (rotZ cg sg))ᵀ * ((M3 (rotY cb sb))ᵀ * (M3 (rotZ ca sa))ᵀ))
+      = M3 (rotZ ca sa) * (M3 (rotY cb sb) * (M3 (rotZ cg sg) * (M3 (rotZ cg sg))ᵀ) * (M3 (rotY cb sb))ᵀ) * (M3 (rotZ ca sa))ᵀ := by
+        simp only [Matrix.mul_assoc]
+    _ = 1 := by rw [rotZ_orthogonal hg, Matrix.mul_one, rotY_orthogonal hb, Matrix.mul_one, rotZ_orthogonal ha]
+
+/-- **`angle_to_so3` has determinant one.** -/
+theorem angleToSO3_det {ca sa cb sb cg sg : R}
+    (ha : ca * ca + sa * sa = 1) (hb : cb * cb + sb * sb = 1) (hg : cg * cg + sg * sg = 1) :
+    (M3 (angleToSO3cs ca sa cb sb cg sg)).det = 1 := by
+  rw [angleToSO3_eq_rot, Matrix.det_mul, Matrix.det_mul, rotZ_det ha, rotY_det hb, rotZ_det hg]; ring
+
+/-! ### SU(2) -/
+
+/-- the matrix `[[a, b], [-b̄, ā]]` (every element of SU(2) has this form; `su2_to_so3` / `su2_to_angle` read
+`a = U[0,0]`, `b = U[0,1]` and assert the other two entries) -/
+def su2Mat (a b : Cx R) : Matrix (Fin 2) (Fin 2) (Cx R) := M2 (mk2 a b (-b.conj) a.conj)
+
+/-- conjugate transpose over `Cx R` -/
+def conjT (U : Matrix (Fin 2) (Fin 2) (Cx R)) : Matrix (Fin 2) (Fin 2) (Cx R) := fun i j => (U j i).conj
+
+/-- squared norm `|a|² + |b|²` of the quaternion `(a, b)` -/
+def nrm2 (a b : Cx R) : R := a.re * a.re + a.im * a.im + (b.re * b.re + b.im * b.im)
+
+theorem angleToSU2_eq_su2Mat (cb sb : R) (p m : Cx R) :
+    M2 (angleToSU2cs cb sb p m) = su2Mat (Cx.smul cb p.conj) (-(Cx.smul sb m.conj)) := by
+  apply mat2_ext <;> simp [angleToSU2cs, su2Mat] <;> ext <;> simp
+
+/-- matrices of the form `[[a, b], [-b̄, ā]]` are closed under multiplication, with the model's `su2MulA/B`. -/
+theorem su2Mat_mul (a b a' b' : Cx R) :
+    su2Mat a b * su2Mat a' b' = su2Mat (su2MulA a b a' b') (su2MulB a b a' b') := by
+  apply mat2_ext <;> simp [su2Mat, mul2_apply, su2MulA, su2MulB] <;> ext <;> simp <;> ring
+
+theorem su2Mat_mul_conjT (a b : Cx R) :
+    su2Mat a b * conjT (su2Mat a b) = Cx.ofReal (nrm2 a b) • (1 : Matrix (Fin 2) (Fin 2) (Cx R)) := by
+  apply mat2_ext <;> simp [su2Mat, mul2_apply, conjT, nrm2] <;> ext <;> simp <;> ring
+
+theorem su2Mat_det (a b : Cx R) : (su2Mat a b).det = Cx.ofReal (nrm2 a b) := by
+  rw [Matrix.det_fin_two]; simp [su2Mat, nrm2]; ext <;> simp <;> ring
+
+/-- **`angle_to_su2` lands in SU(2)**: unitary … -/
+theorem angleToSU2_unitary {cb sb : R} {p m : Cx R} (hb : cb * cb + sb * sb = 1)
+    (hp : p.re * p.re + p.im * p.im = 1) (hm : m.re * m.re + m.im * m.im = 1) :
+    M2 (angleToSU2cs cb sb p m) * conjT (M2 (angleToSU2cs cb sb p m)) = 1 := by
+  rw [angleToSU2_eq_su2Mat, su2Mat_mul_conjT]
+  have : nrm2 (Cx.smul cb p.conj) (-(Cx.smul sb m.conj)) = 1 := by
+    simp [nrm2]; linear_combination (cb * cb) * hp + (sb * sb) * hm + hb
+  rw [this]; exact one_smul _ _
+
+/-- … with determinant one. -/
+theorem angleToSU2_det {cb sb : R} {p m : Cx R} (hb : cb * cb + sb * sb = 1)
+    (hp : p.re * p.re + p.im * p.im = 1) (hm : m.re * m.re + m.im * m.im = 1) :
+    (M2 (angleToSU2cs cb sb p m)).det = 1 := by
+  rw [angleToSU2_eq_su2Mat, su2Mat_det]
+  have : nrm2 (Cx.smul cb p.conj) (-(Cx.smul sb m.conj)) = 1 := by
+    simp [nrm2]; linear_combination (cb * cb) * hp + (sb * sb) * hm + hb
+  rw [this]; rfl
+
+/-! ### SU(2) → SO(3) -/
+
+/-- the nine complex polynomials of `su2_to_so3` are real: `.real` discards nothing. -/
+theorem su2ToSO3cx_im (half : R) (a b : Cx R) (i j : Fin 3) : (su2ToSO3cx half a b i j).im = 0 := by
+  fin_cases i <;> fin_cases j <;> simp [su2ToSO3cx] <;> ring
+
+/-- `su2_to_so3` in terms of the four real coordinates `a = w + i x`, `b = y + i z`. -/
+theorem su2ToSO3_eq {half : R} (h2 : 2 * half = 1) (a b : Cx R) :
+    M3 (su2ToSO3 half a b) = M3 (mk3
+      (a.re*a.re - a.im*a.im - b.re*b.re + b.im*b.im) (2*(a.re*a.im + b.re*b.im)) (-(2*(a.re*b.re - a.im*b.im)))
+      (-(2*(a.re*a.im - b.re*b.im))) (a.re*a.re - a.im*a.im + b.re*b.re - b.im*b.im) (2*(a.re*b.im + a.im*b.re))
+      (2*(a.re*b.re + a.im*b.im)) (-(2*(a.re*b.im - a.im*b.re))) (a.re*a.re + a.im*a.im - b.re*b.re - b.im*b.im)) := by
+  apply mat3_ext <;> simp [su2ToSO3, su2ToSO3cx]
+  · linear_combination (a.re*a.re - a.im*a.im - b.re*b.re + b.im*b.im) * h2
+  · linear_combination (2*(a.re*a.im + b.re*b.im)) * h2
+  · ring
+  · linear_combination (2*(a.re*a.im - b.re*b.im)) * h2
+  · linear_combination (a.re*a.re - a.im*a.im + b.re*b.re - b.im*b.im) * h2
+  · ring
+  · ring
+  · ring
+  · ring
+
+/-- **`su2_to_so3` is multiplicative** — for all pairs `(a, b)`, normalised or not. -/
+theorem su2ToSO3_mul {half : R} (h2 : 2 * half = 1) (a b a' b' : Cx R) :
+    M3 (su2ToSO3 half (su2MulA a b a' b') (su2MulB a b a' b')) = M3 (su2ToSO3 half a b) * M3 (su2ToSO3 half a' b') := by
+  rw [su2ToSO3_eq h2, su2ToSO3_eq h2, su2ToSO3_eq h2]
+  apply mat3_ext <;> simp [mul3_apply, su2MulA, su2MulB] <;> ring
+
+/-- **two-to-one**: `su2_to_so3(-U) = su2_to_so3(U)`. -/
+theorem su2ToSO3_neg (half : R) (a b : Cx R) : su2ToSO3 half (-a) (-b) = su2ToSO3 half a b := by
+  funext i j; fin_cases i <;> fin_cases j <;> simp [su2ToSO3, su2ToSO3cx] <;> ring
+
+/-- `su2_to_so3(U) su2_to_so3(U)ᵀ = (|a|²+|b|²)² · 1`; hence orthogonal on SU(2). -/
+theorem su2ToSO3_mul_transpose {half : R} (h2 : 2 * half = 1) (a b : Cx R) :
+    M3 (su2ToSO3 half a b) * (M3 (su2ToSO3 half a b))ᵀ = (nrm2 a b * nrm2 a b) • (1 : Matrix (Fin 3) (Fin 3) R) := by
+  rw [su2ToSO3_eq h2]
+  apply mat3_ext <;> simp [mul3_apply, nrm2] <;> ring
+
+theorem su2ToSO3_orthogonal {half : R} (h2 : 2 * half = 1) {a b : Cx R} (hu : nrm2 a b = 1) :
+    M3 (su2ToSO3 half a b) * (M3 (su2ToSO3 half a b))ᵀ = 1 := by
+  rw [su2ToSO3_mul_transpose h2, hu]; simp
+
+/-- `det su2_to_so3(U) = (|a|²+|b|²)³`; hence `su2_to_so3` maps SU(2) into SO(3). -/
+theorem su2ToSO3_det {half : R} (h2 : 2 * half = 1) (a b : Cx R) :
+    (M3 (su2ToSO3 half a b)).det = nrm2 a b * nrm2 a b * nrm2 a b := by
+  rw [su2ToSO3_eq h2, Matrix.det_fin_three]; simp [nrm2]; ring
+
+/-- **covering of the Euler parametrisations**: `su2_to_so3 (angle_to_su2 α β γ) = angle_to_so3 α β γ`,
+in terms of the half-angle data `cb = cos(β/2)`, `sb = sin(β/2)`, `p = e^{i(α+γ)/2}`, `m = e^{i(α-γ)/2}`:
+`cos α + i sin α = p·m`, `cos γ + i sin γ = p·m̄`, `cos β = cb² - sb²`, `sin β = 2 sb cb`. -/
+theorem su2ToSO3_angleToSU2 {half : R} (h2 : 2 * half = 1) {cb sb : R} {p m : Cx R}
+    (hb : cb * cb + sb * sb = 1) (hp : p.re * p.re + p.im * p.im = 1) (hm : m.re * m.re + m.im * m.im = 1) :
+    su2ToSO3 half (angleToSU2cs cb sb p m 0 0) (angleToSU2cs cb sb p m 0 1)
+      = angleToSO3cs (p * m).re (p * m).im (cb * cb - sb * sb) (2 * sb * cb) (p * m.conj).re (p * m.conj).im := by
+  have h := su2ToSO3_eq h2 (angleToSU2cs cb sb p m 0 0) (angleToSU2cs cb sb p m 0 1)
+  refine Eq.trans h ?_
+  apply mat3_ext <;> simp [angleToSU2cs, angleToSO3cs]
+  · linear_combination (m.im^2*p.im^2 - m.re^2*p.re^2 - p.im^2 + p.re^2) * hb + (-m.im^2 + 2*m.re^2*sb^2 - m.re^2 - sb^2 + 1) * hp + (-2*p.im^2*sb^2 + 2*p.im^2 + sb^2 - 1) * hm
+  · linear_combination (m.im^2*p.im*p.re - m.im*m.re*p.im^2 - m.im*m.re*p.re^2 + m.re^2*p.im*p.re - 2*p.im*p.re) * hb + (2*m.im*m.re*sb^2) * hp + (-2*p.im*p.re*sb^2 + 2*p.im*p.re) * hm
+  · ring
+  · linear_combination (-m.im^2*p.im*p.re - m.im*m.re*p.im^2 - m.im*m.re*p.re^2 - m.re^2*p.im*p.re + 2*p.im*p.re) * hb + (2*m.im*m.re*sb^2) * hp + (2*p.im*p.re*sb^2 - 2*p.im*p.re) * hm
+  · linear_combination (-m.im^2*p.re^2 + m.re^2*p.im^2 - p.im^2 + p.re^2) * hb + (2*m.im^2*sb^2 - m.im^2 - m.re^2 - sb^2 + 1) * hp + (-2*p.im^2*sb^2 + 2*p.im^2 + sb^2 - 1) * hm
+  · ring
+  · ring
+  · ring
+  · linear_combination (p.im^2 + p.re^2 - 1) * hb + (1 - sb^2) * hp + (-sb^2) * hm
+
+/-! ## Part B — over the reals, with `cos / sin / arccos / arg` (instance `instTrigReal`) -/
+
+section real
+open Real
+
+/-- **`angle_to_so3 α β γ ∈ SO(3)` for all real angles.** -/
+theorem angleToSO3_mem_SO3 (a b g : ℝ) :
+    M3 (angleToSO3 a b g) * (M3 (angleToSO3 a b g))ᵀ = 1 ∧ (M3 (angleToSO3 a b g)).det = 1 := by
+  have h : ∀ x : ℝ, Real.cos x * Real.cos x + Real.sin x * Real.sin x = 1 := fun x => by
+    have := Real.cos_sq_add_sin_sq x; nlinarith [this]
+  exact ⟨angleToSO3_orthogonal (h a) (h b) (h g), angleToSO3_det (h a) (h b) (h g)⟩
+
+/-- **`angle_to_su2 α β γ ∈ SU(2)` for all real angles.** -/
+theorem angleToSU2_mem_SU2 (a b g : ℝ) :
+    M2 (angleToSU2 (1/2) a b g) * conjT (M2 (angleToSU2 (1/2) a b g)) = 1 ∧ (M2 (angleToSU2 (1/2) a b g)).det = 1 := by
+  have h : ∀ x : ℝ, Real.cos x * Real.cos x + Real.sin x * Real.sin x = 1 := fun x => by
+    have := Real.cos_sq_add_sin_sq x; nlinarith [this]
+  exact ⟨angleToSU2_unitary (h _) (h _) (h _), angleToSU2_det (h _) (h _) (h _)⟩
+
+/-- **`su2_to_so3 (angle_to_su2 α β γ) = angle_to_so3 α β γ` for all real angles.** -/
+theorem su2ToSO3_angleToSU2_real (a b g : ℝ) :
+    su2ToSO3 (1/2) (angleToSU2 (1/2) a b g 0 0) (angleToSU2 (1/2) a b g 0 1) = angleToSO3 a b g := by
+  have h : ∀ x : ℝ, Real.cos x * Real.cos x + Real.sin x * Real.sin x = 1 := fun x => by
+    have := Real.cos_sq_add_sin_sq x; nlinarith [this]
+  unfold angleToSU2
+  rw [su2ToSO3_angleToSU2 (by norm_num) (h _) (h _) (h _)]
+  unfold angleToSO3
+  have ea : (1/2 : ℝ) * (a + g) + 1/2 * (a - g) = a := by ring
+  have eg : (1/2 : ℝ) * (a + g) - 1/2 * (a - g) = g := by ring
+  have eb : b = 2 * (1/2 * b) := by ring
+  congr 1
+  · show Real.cos _ * Real.cos _ - Real.sin _ * Real.sin _ = Real.cos a
+    rw [← Real.cos_add, ea]
+  · show Real.cos _ * Real.sin _ + Real.sin _ * Real.cos _ = Real.sin a
+    rw [← ea, Real.sin_add]; ring
+  · show Real.cos _ * Real.cos _ - Real.sin _ * Real.sin _ = Real.cos b
+    conv_rhs => rw [eb, Real.cos_two_mul]
+    have := h (1/2 * b); nlinarith [this]
+  · show 2 * Real.sin _ * Real.cos _ = Real.sin b
+    conv_rhs => rw [eb, Real.sin_two_mul]
+  · show Real.cos _ * Real.cos _ - Real.sin _ * (-Real.sin _) = Real.cos g
+    rw [← eg, Real.cos_sub]; ring
+  · show Real.cos _ * (-Real.sin _) + Real.sin _ * Real.cos _ = Real.sin g
+    rw [← eg, Real.sin_sub]; ring
+
+end real
+
 end Numqi.C15
